@@ -173,6 +173,11 @@ func (ex *c12Exec) expr(fr *c12Frame, e ast.Expr) c12Val {
 		if v, ok := fr.env[o]; ok {
 			return v
 		}
+		if ex.globals != nil {
+			if v, ok := ex.initGlobal(o); ok {
+				return v
+			}
+		}
 		if v, ok := ex.pkgTable(o); ok {
 			return v
 		}
@@ -234,6 +239,12 @@ func (ex *c12Exec) expr(fr *c12Frame, e ast.Expr) c12Val {
 			base = ex.rv(base)
 		}
 		switch b := base.(type) {
+		case *c12MutMap:
+			if !b.Poisoned {
+				if v, _, known := ex.mapLookup(fr, b.frozen(), idx, fr.info.TypeOf(t)); known {
+					return v
+				}
+			}
 		case c12Map:
 			if v, _, known := ex.mapLookup(fr, b, idx, fr.info.TypeOf(t)); known {
 				return v
@@ -368,6 +379,9 @@ func (ex *c12Exec) composite(fr *c12Frame, t *ast.CompositeLit) c12Val {
 		}
 		return s
 	case *types.Slice, *types.Array:
+		if v, ok := ex.keyedList(fr, t, typ); ok {
+			return v
+		}
 		var out []c12Val
 		for _, el := range t.Elts {
 			if kv, ok := el.(*ast.KeyValueExpr); ok {
@@ -405,6 +419,9 @@ func (ex *c12Exec) composite(fr *c12Frame, t *ast.CompositeLit) c12Val {
 				m.Vals = append(m.Vals, ex.rv(ex.expr(fr, kv.Value)))
 			}
 		}
+		if ex.globals != nil {
+			return c12Thaw(m) // inside a start-up table construction maps can be stored into
+		}
 		return m
 	}
 	return c12Sym{Hole: -1, Desc: "composite " + typeName(typ)}
@@ -420,7 +437,8 @@ func (ex *c12Exec) pkgTable(o types.Object) (c12Val, bool) {
 	}
 	lit := ex.p.ReadOnlyTable(v)
 	if lit == nil {
-		return nil, false
+		// a table built by init() and only read afterwards
+		return ex.initBuiltTable(v)
 	}
 	for _, pk := range ex.p.Pkgs {
 		if pk.Types == v.Pkg() {
@@ -445,7 +463,7 @@ func (ex *c12Exec) mapLookup(fr *c12Frame, m c12Map, k c12Val, elemT types.Type)
 			return nil, false, false
 		}
 		if eq {
-			return m.Vals[i], true, true
+			return c12Clone(m.Vals[i]), true, true // a map load copies the element
 		}
 	}
 	if mt, ok := m.Typ.Underlying().(*types.Map); ok {
@@ -808,6 +826,10 @@ func (ex *c12Exec) call(fr *c12Frame, call *ast.CallExpr) c12Val {
 				return c12Lit(fmt.Sprint(i.V))
 			}
 		}
+	case "strconv.AppendInt", "strconv.AppendUint", "strconv.FormatInt", "strconv.FormatUint", "fmt.Appendf", "fmt.Append", "fmt.Sprint":
+		if v, ok := ex.strNative(name, args); ok {
+			return v
+		}
 	case "fmt.Errorf":
 		return c12Sym{Hole: -1, Desc: "error"}
 	case "bytes.NewBuffer", "bytes.NewBufferString":
@@ -998,6 +1020,14 @@ func (ex *c12Exec) builtin(fr *c12Frame, name string, call *ast.CallExpr) c12Val
 				}
 			case c12Nil:
 				return c12Int{0}
+			case c12Map:
+				if name == "len" {
+					return c12Int{int64(len(v.Keys))}
+				}
+			case *c12MutMap:
+				if name == "len" && !v.Poisoned {
+					return c12Int{int64(len(v.Keys))}
+				}
 			case c12Str:
 				if s, ok := v.literal(); ok {
 					return c12Int{int64(len(s))}
@@ -1018,6 +1048,12 @@ func (ex *c12Exec) builtin(fr *c12Frame, name string, call *ast.CallExpr) c12Val
 		}
 		return c12Sym{Hole: -1, Desc: canonExpr(fr.info, call)}
 	case "append":
+		if len(args) >= 1 && c12IsByteSlice(fr.info.TypeOf(call)) {
+			// byte slices are modelled as strings: append(b, s...), append(b, 'x', ';')
+			if v, ok := ex.appendBytes(args[0], args[1:], call.Ellipsis.IsValid()); ok {
+				return v
+			}
+		}
 		if len(args) >= 1 {
 			var base []c12Val
 			switch v := args[0].(type) {
@@ -1041,12 +1077,22 @@ func (ex *c12Exec) builtin(fr *c12Frame, name string, call *ast.CallExpr) c12Val
 			return c12Slice{Elems: append(base, rest...)}
 		}
 	case "make":
+		if v, ok := ex.makeVal(fr, call); ok {
+			return v
+		}
 		return c12Sym{Hole: -1, Desc: canonExpr(fr.info, call)}
 	case "new":
 		if t := fr.info.TypeOf(call.Args[0]); t != nil {
 			return ex.zero(t)
 		}
-	case "copy", "delete", "close", "print", "println", "panic", "recover":
+	case "delete":
+		if len(args) == 2 {
+			if m, ok := args[0].(*c12MutMap); ok {
+				m.remove(args[1])
+			}
+		}
+		return c12Nil{}
+	case "copy", "close", "print", "println", "panic", "recover":
 		return c12Nil{}
 	}
 	return c12Sym{Hole: -1, Desc: canonExpr(fr.info, call)}
